@@ -269,7 +269,10 @@ def build_type(s):
         if k == "@option":
             return tys.Option(*[build_type(t) for t in s[1]])
         if k == "@either":
-            return tys.Either([build_type(t) for t in s[1]], [build_type(t) for t in s[2]])
+            # `Either(left: Iterable[Type], right: Iterable[Type])`: rows are handed over as lists, tuples or one-shot
+            # iterators (chosen by the spec, so a replay rebuilds the same call) — seeded change C07-14
+            return tys.Either(bridge._iterable(s[1], [build_type(t) for t in s[1]]),
+                              bridge._iterable(s[2], [build_type(t) for t in s[2]]))
         if k == "@sum":
             return tys.Sum([[build_type(t) for t in row] for row in s[1]])
         if k == "@fn":
